@@ -69,7 +69,8 @@ Print Assumptions C01_l1_step_refines_new.
 (* ... resizing and row deletion (in place) ... *)
 Theorem C01_l1_step_refines_upd : forall (w : world) p o i r,
   pool w = map abs p -> winv p ->
-  match o with OSetCell _ _ _ _ | ORename _ _ _ _ | OSetColFromCol _ _ _ _ | OSetColFromSlice _ _ _ _ | OSetCol _ _ _ => False | _ => True end ->
+  match o with OSetCell _ _ _ _ | ORename _ _ _ _ | OSetColFromCol _ _ _ _ | OSetColFromSlice _ _ _ _ | OSetCol _ _ _
+             | ODelCol _ _ | OSetSorted _ _ | OSetColKind _ _ _ => False | _ => True end ->
   lstep p o = LUpd i r -> snd (step w o) = OkUnit -> fst (step w o) = put w i (abs r).
 Proof. exact lstep_upd_refines. Qed.
 Print Assumptions C01_l1_step_refines_upd.
